@@ -1,0 +1,11 @@
+//go:build verif
+
+package sessions
+
+// VerifLenCap reports the number of in-flight entries and the ring capacity.
+// Verification hook (build tag verif); not part of the library API.
+func (aq *Ackqueue) VerifLenCap() (int, int) {
+	aq.mu.Lock()
+	defer aq.mu.Unlock()
+	return aq.len(), aq.cap()
+}
